@@ -803,6 +803,16 @@ example :
       ['<','d','i','v','>','<','n','o','s','c','r','i','p','t','>','<','p','>','1','&','l','t',';','2','<','!','>','x','<','/','p','>',
        '<','/','n','o','s','c','r','i','p','t','>','<','/','d','i','v','>'] := by decide
 
+/-- white-space-only and NBSP text is inside the hypothesis (the theorems are about ALL strings), and renders
+verbatim on the static path (`<p>` inert) and on the builder path (its forced-dynamic twin) alike -/
+example :
+    wfTs [[]] [.elem sDiv [] [.elem sP [.plain false ['i','d'] ['s']] [.text [' ',' '], .elem ['b'] [] [.text [cNbsp]]]]] = true ∧
+    macroHtml [.elem sDiv [] [.elem sP [.plain false ['i','d'] ['s']] [.text [' ',' '], .elem ['b'] [] [.text [cNbsp]]]]] =
+      ['<','d','i','v','>','<','p',' ','i','d','=','"','s','"','>',' ',' ','<','b','>',cNbsp,'<','/','b','>','<','/','p','>','<','/','d','i','v','>'] ∧
+    macroHtml [.elem sDiv [] [.elem sP [.plain true ['i','d'] ['s']] [.block [' ',' '], .elem ['b'] [] [.block [cNbsp]]]]] =
+      ['<','d','i','v','>','<','p',' ','i','d','=','"','s','"','>',' ',' ','<','b','>',cNbsp,'<','/','b','>','<','/','p','>','<','/','d','i','v','>'] := by
+  decide
+
 /-- a context with a hole (`C18_static_parts_stable`): static content and a dynamic block in the same hole -/
 example :
     wfTs [[]] (plug [⟨.elem sP [.cls false ['c']], [.text ['a']], [.elem ['b'] [] [.text ['z']]]⟩, ⟨.elem sDiv [], [], []⟩]
